@@ -219,6 +219,24 @@ def run(c):
             c.violation('setting %s given as %s: %s (expected %s)' % (s['case']['setting'], s['case']['form'], got,
                                                                       s['expected']['behaviour']), path,
                         signature={'setting': s['case']['setting'], 'form': s['case']['form']})
+    # several configurations resolved in ONE process (the root table of ConfigResolve applies to each on its own)
+    for seq in (['computed_here', 'computed_other', 'computed_here'], ['computed_other', 'code', 'env', 'computed_here'],
+                ['env', 'computed_other', 'code']):
+        res = probe({'kind': 'root_sequence', 'seq': seq, 'code': {}, 'env': {}})
+        c.traces_validated += 1
+        c.note_case(key=('root-sequence', str(seq)), nontrivial=True)
+        bad = None
+        if 'error' in res:
+            bad = 'raised %s' % res['error']
+        elif res.get('roots') != res.get('want'):
+            bad = 'application roots %s, expected %s' % (res.get('roots'), res.get('want'))
+        elif res.get('plain_after') != res.get('plain_before'):
+            bad = 'a configuration made afterwards without APP_ROOT resolves %r, before the agents were started it ' \
+                  'resolved %r' % (res.get('plain_after'), res.get('plain_before'))
+        if bad:
+            path = c.save_replay({'direction': 'S2C', 'module': 'ConfigResolve', 'table': 'root-sequence', 'seq': seq,
+                                  'result': res})
+            c.violation('agents configured one after the other in one process %s: %s' % (seq, bad), path)
     path_cases(c, paths)
     c.sample({'direction': 'S2C', 'lookup': lookups[0], 'consumer': consumers[0], 'path': paths[0]})
 
